@@ -392,6 +392,9 @@ def _tla(x):
 def run_cache_model(tier, seed, rd, fxv, split_remove=False, emit_one_in=1, timeout=900):
     """TLC over the family on CacheConc.tla; returns (TlcResult, behaviours, model programs, source programs)."""
     fam = conc_family(random.Random(seed), tier)
+    if tier == "quick":
+        # half of the family per run on the model (every program within two consecutive seeds); the DFS part runs all
+        fam = [x for i, x in enumerate(fam) if (i + seed) % 2 == 0 or x[0] in ("rmrm_31", "ins_sweep_rm")]
     mprogs, src = [], {}
     for name, p in fam:
         mprogs.append({"name": name, "init": [_model_op(o) for o in p["init"]], "high": p["cfg"]["high"], "low": p["cfg"]["low"],
